@@ -251,7 +251,7 @@ Section FrameProofs.
   Theorem bytes_bounded : forall st st',
       op_effect_ok -> Forall sv_ok (st_stack W st) -> stepf st = Ok st' -> Forall sv_ok (st_stack W st').
   Proof.
-    intros st st' He H0 H.
+    clear grant. intros st st' He H0 H.
     destruct (step_ok_inv _ _ H) as (_ & _ & _ & c & stack' & n & calls' & pool' & w' & _ & _ & _ & Hop & _ & Hst & Hpost).
     subst st'. simpl. specialize (He _ _ _ _ _ _ _ Hop).
     destruct (os_trusted (spec_at (st_pc W st))) eqn:Etr.
@@ -270,7 +270,7 @@ Section FrameProofs.
   Theorem bytes_bounded_reach : forall st st',
       op_effect_ok -> Forall sv_ok (st_stack W st) -> reach st st' -> Forall sv_ok (st_stack W st').
   Proof.
-    intros st st' He H0 Hr. induction Hr as [st|st st1 st2 Hpc Hs Hr IH]; [exact H0|].
+    clear grant. intros st st' He H0 Hr. induction Hr as [st|st st1 st2 Hpc Hs Hr IH]; [exact H0|].
     apply IH. eapply bytes_bounded; eauto.
   Qed.
 
